@@ -253,8 +253,18 @@ def check(run: Run) -> None:
                     k2.add("surplus")
                 if isinstance(a, ast.Compare) and isinstance(a.ops[0], (ast.NotIn, ast.In)) and (isinstance(a.ops[0], ast.NotIn) == pol) and fx_._term(a.comparators[0]) == sigp:
                     k2.add("unknown")
+                # a keyword that names a field one of the positional arguments already fills: membership in names[:len(args)]
+                if isinstance(a, ast.Compare) and len(a.ops) == 1 and isinstance(a.ops[0], ast.In) and pol:
+                    ct_ = _len_norm(_seq_norm(fx_._term(a.comparators[0])))
+                    if ct_[0] == "slice" and ct_[1] == sigp and ct_[3] == n_pos and ct_[2] in (None, ("const", None), ("const", 0)):
+                        k2.add("twice")
+                # a `*` argument among the positional ones
+                if pol and isinstance(a, ast.Call) and isinstance(a.func, ast.Name) and a.func.id == "any" and "Starred" in txt:
+                    k2.add("starred")
     run.check("surplus" in k2, "C06.R4", cd, cd.node, "surplus arguments raise ValueError", "more arguments than fields is not refused")
     run.check("unknown" in k2, "C06.R4", cd, cd.node, "unknown keyword raises ValueError", "a keyword that is not a field name is not refused")
+    run.check("twice" in k2, "C06.R4", cd, cd.node, "a keyword naming an already filled field raises ValueError", "a keyword that names a field which a positional argument already fills is not refused: P(e.a, x=e.b) lowers to {'x': e.a} and e.b silently disappears from the query (python: TypeError, multiple values for argument 'x')", "if name in sig_arg_names[: len(a.args)]: raise ValueError(..)", key="doubly bound constructor field not refused")
+    run.check("starred" in k2, "C06.R4", cd, cd.node, "a `*` argument raises ValueError", "a `*seq` among the constructor's positional arguments is bound to one field as a Starred node: P(*e.a) lowers to {'x': *e.a}, not a dictionary python can evaluate", "if any(isinstance(v, ast.Starred) for v in a.args): raise ValueError(..)", key="starred constructor argument not refused")
     # surplus test: len(names) < len(args) + len(keywords)
     for n in own_nodes(cd):
         if isinstance(n, ast.If) and "len(sig" in ast.unparse(n.test) or (isinstance(n, ast.If) and "Too many" in ast.unparse(n)):
